@@ -67,6 +67,10 @@ CHECKS.update({
                 text='llsym accounts every allocation of the real pipeline during symbolically executed sessions over files of N and 3N '
                      'objects (saturating scaled-down thresholds); the live-heap peak must not grow with N; growth is re-measured natively.',
                 note='sizes N, 3N (6N thorough); thresholds scaled via private members; one cooperative schedule; extrapolation by induction argument'),
+    'C13': dict(cat='model_checking', ref='§C13',
+                text='All API call histories up to the bound are enumerated; each runs the real File with its workers on llsym\'s lifetime-checked '
+                     'heap: leaks, double frees, use after free, unjoined threads and wrong is_open/good/eof are reported.',
+                note='history length 4 quick / 6 thorough (12 in the property text is outside); files of 2 objects; one schedule per history'),
     'C15': dict(cat='model_checking', ref='§C15',
                 text='Real UncompressedFile (with real libstdc++ list/shared_ptr/vector code) executed on bounded operation histories with '
                      'symbolic data bytes and completely enumerated chunkings; every byte and observer compared with a flat byte-queue model.',
